@@ -24,7 +24,8 @@ BOUNDS = {
 
 SOURCES = ['1', ' 1', '1 ', '\n1', '1\n', '\f1', '1\f', '[1, 2]', '{"a": [1]}', '{"a": {"b": 1}}', 'x = [1]; x', 'f = v => [v]; f(1)',
            '1 +', 'u', 'map(l, v => v + k)', '[[1], {"c": [2]}]', 'x = {"a": {"b": [1]}}; x["a"]', 'l', 'push(l, 3); l',
-           'r = []; push(r, [0]); r', 'k if k else [k]']
+           'r = []; push(r, [0]); r', 'k if k else [k]',
+           'k\n-1', 'k -1', 'len(l)\n[2]', 'len(l) [2]', 'k == "a  b"', 'k == "a b"', '\n\nx = = 1', 'x = = 1', 'x = 1\nk', 'x = 1 k', ' [1,\n 2] ', '[1, 2]\n']
 WARM = ['1', '{"a": {"b": 1}}', 'map(l, v => v + k)', 'f = v => [v]; f(1)', '[[1], {"c": [2]}]']
 
 
